@@ -296,6 +296,11 @@ def write_docroot(root, rng, n_files=40, max_size=65536):
     os.makedirs(os.path.join(root, 'emptydir'), exist_ok=True)
     try:
         os.symlink('a/data.txt', os.path.join(root, 'link.txt'))
+        # links BELOW the top level, with relative targets (same directory, up, down)
+        os.symlink('data.txt', os.path.join(root, 'a', 'alias.txt'))
+        os.symlink('../b/data.txt', os.path.join(root, 'a', 'across.txt'))
+        os.makedirs(os.path.join(root, 'sub', 'deep'), exist_ok=True)
+        os.symlink('../../a/page.html', os.path.join(root, 'sub', 'deep', 'up.html'))
     except OSError:
         pass
     return files
